@@ -1298,6 +1298,164 @@ func scopeCompanion(p *Program, k string) string {
 	return "companion of the scope stack: appended to only where a scope is opened, cut back in " + er.truncate.Name() + " together with the stack (restored by depth on every exit: R-SCOPERESTORE)"
 }
 
+// balancedState: a counter that every function increments by one and
+// decrements again in a deferred function registered in the same function, or
+// a set (map to bool) into which every function inserts a key that a deferred
+// delete in the same function removes again.  Whatever way the function is
+// left — return, error, panic — the state is what it was on entry.
+func balancedState(p *Program, k string) string {
+	var fk string
+	switch {
+	case strings.HasPrefix(k, "field "):
+		fk = strings.TrimPrefix(k, "field ")
+	case strings.HasPrefix(k, "map "):
+		fk = strings.TrimPrefix(k, "map ")
+	default:
+		return ""
+	}
+	incs, decs, ins, dels, other := 0, 0, 0, 0, 0
+	balanced := true
+	for _, fn := range p.LibFns {
+		root := fn
+		for root.Parent() != nil {
+			root = root.Parent()
+		}
+		for _, b := range fn.Blocks {
+			for _, x := range b.Instrs {
+				switch v := x.(type) {
+				case *ssa.Store:
+					if fieldKey(v.Addr) != fk {
+						continue
+					}
+					if bo, ok := v.Val.(*ssa.BinOp); ok {
+						if n, ok := constInt(bo.Y); ok && n == 1 {
+							if ld, ok := bo.X.(*ssa.UnOp); ok && fieldKey(ld.X) == fk {
+								if bo.Op == token.ADD {
+									incs++
+									if !hasDeferredUndo(root, fk, "dec") {
+										balanced = false
+									}
+									continue
+								}
+								if bo.Op == token.SUB {
+									decs++
+									if fn.Parent() == nil || !isDeferredBody(fn) {
+										balanced = false
+									}
+									continue
+								}
+							}
+						}
+					}
+					if isFreshEmpty(v.Val) || isMakeMapVal(v.Val) {
+						continue // created on first use
+					}
+					other++
+				case *ssa.MapUpdate:
+					if ld, ok := v.Map.(*ssa.UnOp); ok && fieldKey(ld.X) == fk {
+						ins++
+						if !hasDeferredUndo(root, fk, "delete") {
+							balanced = false
+						}
+					}
+				case *ssa.Defer:
+					if bi, ok := v.Call.Value.(*ssa.Builtin); ok && bi.Name() == "delete" {
+						if ld, ok := v.Call.Args[0].(*ssa.UnOp); ok && fieldKey(ld.X) == fk {
+							dels++
+						}
+					}
+				}
+			}
+		}
+	}
+	if other > 0 || !balanced {
+		return ""
+	}
+	if incs > 0 && decs > 0 {
+		return fmt.Sprintf("balanced counter: %d increment(s), each undone by a deferred decrement registered in the same function (restored on every exit, a panic included)", incs)
+	}
+	if ins > 0 && dels > 0 {
+		return fmt.Sprintf("balanced set: %d insertion(s), each undone by a deferred delete in the same function (restored on every exit, a panic included)", ins)
+	}
+	return ""
+}
+
+func isMakeMapVal(v ssa.Value) bool {
+	_, ok := v.(*ssa.MakeMap)
+	return ok
+}
+
+// isDeferredBody: fn is an anonymous function that its parent defers.
+func isDeferredBody(fn *ssa.Function) bool {
+	par := fn.Parent()
+	if par == nil {
+		return false
+	}
+	for _, b := range par.Blocks {
+		for _, ins := range b.Instrs {
+			if d, ok := ins.(*ssa.Defer); ok {
+				if mc, ok := d.Call.Value.(*ssa.MakeClosure); ok && mc.Fn == ssa.Value(fn) {
+					return true
+				}
+				if d.Call.StaticCallee() == fn {
+					return true
+				}
+			}
+		}
+	}
+	return false
+}
+
+// hasDeferredUndo: root defers (directly, or in a deferred closure) the
+// decrement of the counter / the delete from the set.
+func hasDeferredUndo(root *ssa.Function, fk, kind string) bool {
+	for _, b := range root.Blocks {
+		for _, ins := range b.Instrs {
+			d, ok := ins.(*ssa.Defer)
+			if !ok {
+				continue
+			}
+			if kind == "delete" {
+				if bi, ok := d.Call.Value.(*ssa.Builtin); ok && bi.Name() == "delete" {
+					if ld, ok := d.Call.Args[0].(*ssa.UnOp); ok && fieldKey(ld.X) == fk {
+						return true
+					}
+				}
+			}
+			var body *ssa.Function
+			if mc, ok := d.Call.Value.(*ssa.MakeClosure); ok {
+				body, _ = mc.Fn.(*ssa.Function)
+			} else if f := d.Call.StaticCallee(); f != nil {
+				body = f
+			}
+			if body == nil {
+				continue
+			}
+			for _, bb := range body.Blocks {
+				for _, i2 := range bb.Instrs {
+					switch v := i2.(type) {
+					case *ssa.Store:
+						if kind == "dec" && fieldKey(v.Addr) == fk {
+							if bo, ok := v.Val.(*ssa.BinOp); ok && bo.Op == token.SUB {
+								return true
+							}
+						}
+					case *ssa.Call:
+						if kind == "delete" {
+							if bi, ok := v.Call.Value.(*ssa.Builtin); ok && bi.Name() == "delete" {
+								if ld, ok := v.Call.Args[0].(*ssa.UnOp); ok && fieldKey(ld.X) == fk {
+									return true
+								}
+							}
+						}
+					}
+				}
+			}
+		}
+	}
+	return false
+}
+
 func ruleStateCensus(p *Program, r *Reporter) {
 	a := needAnchors(p, r)
 	if a == nil {
@@ -1494,6 +1652,8 @@ func ruleStateCensus(p *Program, r *Reporter) {
 		} else if class, ok := stateNotRunState(k); ok {
 			r.Ok("state "+k, p.Pos(g.pos), class)
 		} else if why := scopeCompanion(p, k); why != "" {
+			r.OkNT("state "+k, p.Pos(g.pos), why+"; written by "+strings.Join(fl, ", "))
+		} else if why := balancedState(p, k); why != "" {
 			r.OkNT("state "+k, p.Pos(g.pos), why+"; written by "+strings.Join(fl, ", "))
 		} else {
 			r.Fail("state "+k, p.Pos(g.pos), "code reachable from the interpreter ("+strings.Join(fl, ", ")+") writes this state and no class (persistent by design / reset at entry / restored on exit / private copy / guarded cache) is recorded for it: it can carry information from one run to the next")
